@@ -1,6 +1,7 @@
 import Driver.Util
 import Wee.Model.AttackCache
 import Wee.Model.Cbor
+import Wee.Model.Hash
 /-! Request handlers: for every request line the MODEL answer and the SPEC answer ("-" = no oracle). -/
 namespace Driver
 open Wee
@@ -272,6 +273,37 @@ def handle (line : String) : Out :=
         let distinctKeys := (st.1.map (·.1)).eraseDups.length
         (st.1, s!"n<={Nat.min distinctKeys (tables * buckets * Gen.bucketSize)}/{tables * buckets * Gen.bucketSize}" :: st.2)) ([], [])
     ⟨joinSp outsRev.reverse, joinSp specRev.reverse⟩
+  | "hash" =>
+    -- hash <seed> <fen...>; spec = the rule-relevant key of the position (placement, side, rights,
+    -- en-passant target only if a capture is available); the checker demands equal keys ⇔ equal hashes
+    let seed := parts[1]!.toNat!
+    let fen := rest 2
+    let model := match parseFenM fen with
+      | Option.none => "badfen"
+      | some s =>
+        let (kt, _) := KeyTable.ofRng (Rng.seedFromU64 seed.toUInt64)
+        toString (hash kt.keys s).toNat
+    let spec := match specOf fen with
+      | none => "-"
+      | some p =>
+        let f := (Spec.writeFen p).splitOn " "
+        let epAvail := match p.ep with
+          | none => "-"
+          | some t =>
+            let fromSqs := [(-1 : Int), 1].filterMap fun df => Spec.step t df (-(p.turn.fwd))
+            if fromSqs.any (fun s => p.at s == some (p.turn, Spec.Kind.pawn)) then Spec.sqName t else "-"
+        s!"key={f[0]!}_{f[1]!}_{f[2]!}_{epAvail}"
+    ⟨model, spec⟩
+  | "rng" =>
+    let r := Rng.seedFromU64 parts[1]!.toNat!.toUInt64
+    let n := parts[2]!.toNat!
+    let m := parts[3]!.toNat!
+    let (outs, r) := (List.range n).foldl (fun (st : List String × Rng.ChaCha8) _ =>
+      let (v, r') := Rng.nextU64 st.2; (toString v.toNat :: st.1, r')) ([], r)
+    let (outs, r) := (List.range m).foldl (fun (st : List String × Rng.ChaCha8) _ =>
+      let (v, r') := Rng.genRangeI32 (-10) 10 st.2; (toString v :: st.1, r')) (outs, r)
+    let (g, _) := Rng.nextU64 r
+    ⟨joinSp ((toString g.toNat :: outs).reverse), "-"⟩
   | _ => ⟨"unknown-request", "-"⟩
 
 end Driver
